@@ -153,7 +153,14 @@ func runC10(x *simkit.Exec) {
 	npool := x.Range("nqueries", 1, 4)
 	var pool []query
 	for i := 0; i < npool; i++ {
-		pool = append(pool, drawQuery(x, ds, "q"))
+		q := drawQuery(x, ds, "q")
+		// cache histories: the same selectors over a different time range (what is cached for one range
+		// must not be taken for the answer of another)
+		if i > 0 && x.Bool("q.sameMatchers", 1, 2) {
+			q.Matchers = pool[x.Draw("q.sameAs", i)].Matchers
+			q.MinT, q.MaxT = drawTimeRange(x, ds, "q.again")
+		}
+		pool = append(pool, q)
 	}
 	plans := make([][]int, nclients)
 	for c := range plans {
@@ -163,6 +170,62 @@ func runC10(x *simkit.Exec) {
 		}
 	}
 	faults := x.Bool("faults", 1, 2)
+	// A third of the runs is a directed cache history: the same selectors first over a narrow range
+	// (some matching series have no chunk in it), then over everything, on one client, with an index
+	// cache and lazy expanded postings enabled. What the first answer leaves in the caches is keyed by
+	// the selectors alone.
+	ntw := false
+	if x.Bool("narrowThenWide", 1, 3) && len(pool) >= 1 {
+		ntw = true
+		q0 := pool[0]
+		total := int64(ds.NumSlots) * ds.SlotLen
+		lo := int64(x.Draw("ntw.slot", ds.NumSlots)) * ds.SlotLen
+		q0.MinT, q0.MaxT = lo, lo+ds.SlotLen/2
+		// pick a series of some block and select it with two posting groups: a selective one and a
+		// broad one (the broad one is what the cost model expands lazily when series are estimated to
+		// be small); the narrow range is a part of that block in which this very series has no chunk
+		bi := x.Draw("ntw.block", len(ds.Blocks))
+		if b := ds.Blocks[bi]; len(b.Series) > 0 {
+			sp := b.Series[x.Draw("ntw.series", len(b.Series))]
+			var ls []labels.Label
+			sp.Lset.Range(func(lb labels.Label) { ls = append(ls, lb) })
+			a := ls[x.Draw("ntw.l1", len(ls))]
+			bl := ls[x.Draw("ntw.l2", len(ls))]
+			q0.Matchers = []*labels.Matcher{labels.MustNewMatcher(labels.MatchEqual, a.Name, a.Value)}
+			switch x.Draw("ntw.broad", 3) {
+			case 0:
+				q0.Matchers = append(q0.Matchers, labels.MustNewMatcher(labels.MatchRegexp, bl.Name, ".+"))
+			case 1:
+				q0.Matchers = append(q0.Matchers, labels.MustNewMatcher(labels.MatchNotEqual, bl.Name, ""))
+			default:
+				q0.Matchers = append(q0.Matchers, labels.MustNewMatcher(labels.MatchRegexp, bl.Name, regexp.QuoteMeta(bl.Value)+"|"+regexp.QuoteMeta(valuePool[x.Draw("ntw.alt", len(valuePool))])+"|"+regexp.QuoteMeta(valuePool[x.Draw("ntw.alt2", len(valuePool))])))
+			}
+			cfg.EstSeries = []uint64{8, 16, 100}[x.Draw("ntw.estseries", 3)]
+			first, last := sp.Chunks[0].mint(), sp.Chunks[0].maxt()
+			for _, c := range sp.Chunks {
+				first, last = min(first, c.mint()), max(last, c.maxt())
+			}
+			switch {
+			case first > b.MinT:
+				q0.MinT, q0.MaxT = b.MinT, first-1
+			case last < b.MaxT-1:
+				q0.MinT, q0.MaxT = last+1, b.MaxT-1
+			}
+		}
+		q1 := q0
+		q1.MinT, q1.MaxT = 0, total
+		pool = []query{q0, q1}
+		npool = 2
+		plans = [][]int{{0, 1}}
+		if x.Bool("ntw.again", 1, 2) {
+			plans[0] = append(plans[0], 0, 1)
+		}
+		nclients = 1
+		cfg.LazyPostings = true
+		if cfg.IndexCache == 0 {
+			cfg.IndexCache = 2
+		}
+	}
 
 	bkt := simbucket.New("bucket")
 	if !ds.materialise(x, bkt) {
@@ -250,6 +313,18 @@ func runC10(x *simkit.Exec) {
 			x.Troublef("c10: scheduler stuck, parked=%v", s.ParkedIDs())
 		}
 		g.reachProbes()
+		if ntw {
+			x.Probe("c10.ntw_runs")
+			if g.counter("thanos_bucket_store_lazy_expanded_postings_total") > 0 {
+				x.Probe("c10.ntw_lazy_postings_used")
+				if len(exp[1]) > len(exp[0]) {
+					x.Probe("c10.ntw_lazy_and_wide_answer_has_more_series")
+				}
+			}
+			if len(exp[1]) > len(exp[0]) {
+				x.Probe("c10.ntw_wide_answer_has_more_series")
+			}
+		}
 		if g.cache != nil {
 			x.ProbeN("c10.cache_hits", int(g.cache.hits.Load()))
 			x.ProbeN("c10.cache_misses", int(g.cache.miss.Load()))
